@@ -170,7 +170,31 @@ class EncoderHistory(Harness):
             return c.M([("a", 1), ("g", c.G([("b", object())]))])
         if self.first == "converts":
             return c.M([("g", c.G([("b", 1)])), ("g", c.G([("c", 2), ("c", 3)]))])
+        # failures part-way through a value, at different places of the encoder
+        if self.first == "raises_in_seq":
+            return c.M([("a", [1, "both \" and '", 3])])
+        if self.first == "raises_in_inner_seq":
+            return c.M([("a", [[1, 2], [3, object()]])])
+        if self.first == "raises_in_set":
+            return c.M([("a", c.fset([object()]))])
+        if self.first == "raises_in_quantity":
+            return c.M([("a", [c.Q(1, "m"), c.Q(object(), "both \" and '")])])
+        if self.first == "raises_in_block":
+            return c.M([("o", c.O([("g", c.G([("a", 1), ("b", [object()])]))])), ("z", 1)])
         raise KeyError(self.first)
+
+    def second_module(self, L, x):
+        c = rt.C(L)
+        # modules some dialects must refuse, next to the shared shapes
+        if self.shape == "seq3d":
+            return c.M([("a", [[[1, 2], [3, 4]], [[5, 6], [7, x]]])])
+        if self.shape == "seqnone":
+            return c.M([("a", [1, None, x])])
+        if self.shape == "emptyinner":
+            return c.M([("a", [[], [x]])])
+        if self.shape == "setseq":
+            return c.M([("a", c.fset([x])), ("b", [c.Q(x, "m")])])
+        return rt.shape_module(L, self.shape, x)
 
     def prop_fn(self, L, inp):
         x = inp["x"]
@@ -183,7 +207,7 @@ class EncoderHistory(Harness):
 
         def enc(E):
             try:
-                return ("ok", E.encode(rt.shape_module(L, self.shape, x)))
+                return ("ok", E.encode(self.second_module(L, x)))
             except ValueError:
                 return ("ValueError", None)
             except TypeError:
@@ -280,6 +304,9 @@ def obligations(tier):
     for d in ("PVL", "ODL", "PDS3", "ISIS"):
         for first in ("succeeds", "raises", "converts"):
             for shape in ("group", "grouponly", "seq"):
+                obs.append(EncoderHistory(dialect=d, first=first, shape=shape, n=1))
+        for first in ("raises_in_seq", "raises_in_inner_seq", "raises_in_set", "raises_in_quantity", "raises_in_block"):
+            for shape in ("seq3d", "seqnone", "emptyinner", "setseq", "nestedbad", "quant") + (() if quick else ("seq2", "dupgroup")):
                 obs.append(EncoderHistory(dialect=d, first=first, shape=shape, n=1))
     for d in ("PVL", "ODL", "PDS3", "Omni"):
         for first in ("1", '"x"', "2001-01-01", "???", "16#FF#"):
